@@ -1,6 +1,7 @@
 package checks
 
 import (
+	"bytes"
 	"fmt"
 	"sort"
 
@@ -71,7 +72,7 @@ func c15Laws(c *Ctx, id string, ic comparer.Comparer, uc comparer.Comparer, a, b
 	if ab != -ba {
 		c.Res.Violate("iComparer.Compare:antisymmetric", fmt.Sprintf("Compare(a,b)=%d Compare(b,a)=%d", ab, ba), rp)
 	}
-	same := string(a.u) == string(b.u) && a.seq == b.seq && a.kt == b.kt
+	same := uc.Compare(a.u, b.u) == 0 && a.seq == b.seq && a.kt == b.kt
 	if (ab == 0) != same {
 		c.Res.Violate("iComparer.Compare:eq-iff-same", fmt.Sprintf("Compare=%d same=%v", ab, same), rp)
 	}
@@ -208,6 +209,24 @@ func runC15(c *Ctx) {
 			}
 		}
 		c.Res.CountN("comparer", id, n)
+	}
+	// a comparer that identifies distinct byte strings (trailing blanks ignored) and shortens to the canonical
+	// spelling: outside the Lean model (LawfulUCmp.eq_of), so the laws are checked on the implementation only
+	{
+		uc := gen.Comparer("blankins")
+		ic := leveldb.VerifIComparer(uc)
+		for i := 0; i < n/4; i++ {
+			univ := gen.Universe(r, 5, 4)
+			mk := func() ikey {
+				k := randIKey(r, univ)
+				k.u = append(append([]byte{}, k.u...), bytes.Repeat([]byte{' '}, r.Intn(3))...)
+				return k
+			}
+			a, b, d := mk(), mk(), mk()
+			c.Res.Eval(fmt.Sprintf("blankins/%x/%x", a.enc(), b.enc()), string(a.u) != string(b.u))
+			c15Laws(c, "blankins", ic, uc, a, b, d)
+		}
+		c.Res.CountN("comparer", "blankins(non-injective, laws only)", n/4)
 	}
 	// malformed stream for the parser
 	for i := 0; i < c.Scale(2000, 20000); i++ {
